@@ -32,7 +32,7 @@ Qed.
 Ltac other_thread Hopen u t Hne :=
   rewrite (upd_other _ t _ u Hne); cbn [Sched.shared lk]; rewrite (Hopen u).
 
-Lemma hstep_inv : forall t c, HInv c -> HInv (step_thread (hsem true) t c).
+Lemma hstep_inv : forall t c, HInv c -> HInv (step_thread (hsem LockFirst) t c).
 Proof.
   intros t c (Hopen & Hscan & Hw). unfold step_thread.
   destruct (todo (threads c t)) as [|o rest] eqn:El; [repeat split; try apply Hopen; assumption|].
@@ -40,7 +40,7 @@ Proof.
   destruct (loc (threads c t)) eqn:Eo.
   - (* this handle is open: it holds the lock *)
     assert (Hl : lk (Sched.shared c) = Some t) by (apply Ht; reflexivity).
-    destruct o; cbn [hsem]; [ | | | | rewrite Hl ]; (split; [|split]); cbn [Sched.shared lk files results threads]; unfold push.
+    destruct o; cbn [hsem locks scan_first]; [ | | | | rewrite Hl ]; (split; [|split]); cbn [Sched.shared lk files results threads]; unfold push.
     + intro u. destruct (Nat.eq_dec u t) as [->|Hne]; [rewrite upd_same; cbn; tauto|].
       rewrite (upd_other _ t _ u Hne). apply Hopen.
     + rewrite scan_app, Hscan, Hl. cbn. rewrite Nat.eqb_refl. reflexivity.
@@ -65,7 +65,7 @@ Proof.
     + exact Hw.
   - (* this handle is not open *)
     assert (Hl : lk (Sched.shared c) <> Some t) by (intro E; apply Ht in E; discriminate).
-    destruct o; cbn [hsem].
+    destruct o; cbn [hsem locks scan_first].
     + destruct (lk (Sched.shared c)) as [h|] eqn:Elk; (split; [|split]); cbn [Sched.shared lk files results threads]; unfold push.
       * intro u. destruct (Nat.eq_dec u t) as [->|Hne].
         -- rewrite upd_same; cbn. split; [discriminate|]. intro E. exfalso. apply Hl. exact E.
@@ -107,13 +107,13 @@ Proof.
 Qed.
 
 Theorem locked_handles_exclusive : forall progs sched,
-  let c := hrun true sched (hinit progs) in
+  let c := hrun LockFirst sched (hinit progs) in
   (forall t u, loc (threads c t) = true -> loc (threads c u) = true -> t = u) /\
   writes_by_holder (files (Sched.shared c)) = true /\
   single_handle_history (results (Sched.shared c)) = true.
 Proof.
   intros progs sched c.
-  assert (H : HInv c) by (apply (run_invariant (hsem true) HInv hstep_inv sched _ (hinit_inv progs))).
+  assert (H : HInv c) by (apply (run_invariant (hsem LockFirst) HInv hstep_inv sched _ (hinit_inv progs))).
   destruct H as (Hopen & Hscan & Hw). split; [|split].
   - intros t u Ht Hu. apply Hopen in Ht. apply Hopen in Hu. rewrite Ht in Hu. inversion Hu. reflexivity.
   - exact Hw.
@@ -125,12 +125,12 @@ Definition nolock_witness_progs : list (list hop) := [[HOpen; HCommit 1; HClose]
 Definition nolock_witness_sched : list nat := [0; 1; 0; 1; 0; 1].
 
 Lemma nolock_two_writers :
-  let c := hrun false [0; 1] (hinit nolock_witness_progs) in
+  let c := hrun NoLock [0; 1] (hinit nolock_witness_progs) in
   loc (threads c 0) = true /\ loc (threads c 1) = true.
 Proof. vm_compute. split; reflexivity. Qed.
 
 Lemma nolock_not_single_handle :
-  let c := hrun false nolock_witness_sched (hinit nolock_witness_progs) in
+  let c := hrun NoLock nolock_witness_sched (hinit nolock_witness_progs) in
   single_handle_history (results (Sched.shared c)) = false /\
   writes_by_holder (files (Sched.shared c)) = false /\
   length (files (Sched.shared c)) = 4.
@@ -138,16 +138,26 @@ Proof. vm_compute. repeat split. Qed.
 
 (* non-vacuity: under the lock the same programs and schedule run; the second open is refused *)
 Example locked_example :
-  results (Sched.shared (hrun true nolock_witness_sched (hinit nolock_witness_progs))) =
+  results (Sched.shared (hrun LockFirst nolock_witness_sched (hinit nolock_witness_progs))) =
   [(0, ROpenOk); (1, ROpenRefused); (0, RWrote (WCommit 1%Z)); (1, RNoHandle); (0, RClosed); (1, RNoHandle)].
 Proof. vm_compute. reflexivity. Qed.
 
 (* the pinned tree's offline tools (no lock): a vacuum runs while a handle is open *)
 Lemma nolock_offline_under_open_handle :
-  let c := hrun false [0; 1; 0] (hinit [[HOpen; HCommit 1]; [HOffline]]) in
+  let c := hrun NoLock [0; 1; 0] (hinit [[HOpen; HCommit 1]; [HOffline]]) in
   single_handle_history (results (Sched.shared c)) = false.
 Proof. vm_compute. reflexivity. Qed.
 Example locked_offline_example :
-  results (Sched.shared (hrun true [0; 1; 0; 0; 1] (hinit [[HOpen; HCommit 1; HClose]; [HOffline; HOffline]]))) =
+  results (Sched.shared (hrun LockFirst [0; 1; 0; 0; 1] (hinit [[HOpen; HCommit 1; HClose]; [HOffline; HOffline]]))) =
   [(0, ROpenOk); (1, ROfflineRefused); (0, RWrote (WCommit 1%Z)); (0, RClosed); (1, ROffline)].
 Proof. vm_compute. reflexivity. Qed.
+
+
+(* the lock taken AFTER the files were opened and the log's tail was cut: every second open is refused, yet the
+   files were written by a handle that does not hold the lock *)
+Lemma locklate_refused_open_writes :
+  let c := hrun LockLate [0; 0; 1] (hinit [[HOpen; HCommit 1]; [HOpen]]) in
+  results (Sched.shared c) = [(0, ROpenOk); (0, RWrote (WCommit 1%Z)); (1, ROpenRefused)] /\
+  single_handle_history (results (Sched.shared c)) = true /\
+  writes_by_holder (files (Sched.shared c)) = false.
+Proof. vm_compute. repeat split. Qed.
